@@ -25,6 +25,7 @@ RULE = (
     "non-trivial = history with >=1 death followed by >=1 iteration; distinct = (runner kind, configuration, operation trace)"
 )
 
+DET = vclock.DetUUID()
 _pid = itertools.count(5000)
 ALL_PROCS: list[Any] = []
 
@@ -111,6 +112,11 @@ def install(cpus: int) -> list[tuple[Any, str, Any]]:
     os_shim2 = types.SimpleNamespace(**{k: getattr(pr.os, k) for k in dir(pr.os) if not k.startswith("__")})
     os_shim2.kill = lambda pid, sig: None
     setattr_(pr, "os", os_shim2)
+    # worker ids are uuid4 values: make them a counter so that "the k-th tracked worker" is the same worker on a replay
+    import uuid as _uuid
+
+    DET.reset()
+    setattr_(_uuid, "uuid4", DET.uuid4)
     return saved
 
 
@@ -135,6 +141,7 @@ def machine_shard(rkind: str, seed: int, examples: int, known: list[str]) -> dic
             self.trace: list[Any] = []
             self.flags: set[str] = set()
             self.since_death = None  # iterations since the last death
+            self.dead_ids: set[str] = set()
             self.nontrivial = False
             self.saved = None
 
@@ -142,8 +149,8 @@ def machine_shard(rkind: str, seed: int, examples: int, known: list[str]) -> dic
             self.trace.append(op)
             rep.holder["case"] = {"runner": rkind, "size": getattr(self, "size", None), "trace": [list(map(str, o)) for o in self.trace]}
 
-        @initialize(size=st.integers(1, 4))
-        def start(self, size):
+        @initialize(size=st.integers(1, 4), min_slots=st.sampled_from([1, 1, 2, 4]))
+        def start(self, size, min_slots):
             from pynenc.runner.multi_thread_runner import MultiThreadRunner
             from pynenc.runner.persistent_process_runner import PersistentProcessRunner
             from pynenc.runner.process_runner import ProcessRunner
@@ -158,7 +165,9 @@ def machine_shard(rkind: str, seed: int, examples: int, known: list[str]) -> dic
                 conf.update(max_processes=size, min_processes=1, enforce_max_processes=(enf == "on"))
                 cls = MultiThreadRunner
             elif name == "PersistentProcessRunner":
-                conf.update(num_processes=size)
+                # the pool size resolved at start is max(min_parallel_slots, num_processes)
+                conf.update(num_processes=size, min_parallel_slots=min_slots)
+                self.size = size = max(size, min_slots)
                 cls = PersistentProcessRunner
             else:
                 cls = ProcessRunner
@@ -215,6 +224,10 @@ def machine_shard(rkind: str, seed: int, examples: int, known: list[str]) -> dic
                 self.since_death += 1
                 self.nontrivial = True
             procs = self._procs()
+            reused = [rid for rid, p in procs.items() if rid in self.dead_ids and p.is_alive()]
+            if reused:
+                # heartbeats for that id would be reported on behalf of the dead worker: its unfinished invocations never become recoverable
+                rep.fail(f"machine:{rkind}:dead-worker-id-reused", f"a replacement worker is tracked under the runner id of a dead worker ({reused[0][:8]})")
             dead_tracked = [rid for rid, p in procs.items() if not p.is_alive()]
             live = sum(1 for p in procs.values() if p.is_alive())
             settled = self.since_death is None or self.since_death >= 2
@@ -241,6 +254,7 @@ def machine_shard(rkind: str, seed: int, examples: int, known: list[str]) -> dic
                 return
             for p in victims:
                 p.die(code)
+            self.dead_ids.update(rid for rid, p in procs if p in victims)
             self.since_death = 0
             self.flags.add(f"exit{code}")
             if len(victims) == len(procs):
